@@ -411,7 +411,9 @@ func LstatNode(p string, withSum bool) (Node, error) {
 	}
 	switch n.Type {
 	case "f":
-		if withSum {
+		if withSum && fi.Size() > 1<<28 {
+			n.Sum = "unhashed-huge" // sparse boundary-size files are never read
+		} else if withSum {
 			b, err := os.ReadFile(p)
 			if err != nil {
 				// unreadable (mode 0 as non-root): record as such
